@@ -26,7 +26,8 @@ def main():
                                cwd="/", capture_output=True, text=True)
             if r.returncode != 0:
                 print("PATCH DOES NOT APPLY:", r.stdout, r.stderr); return 3
-        env = dict(os.environ, VERIF_REPO=dst, VERIF_SEED=a.seed, PYTHONPATH=dst)
+        env = dict(os.environ, VERIF_REPO=dst, VERIF_SEED=a.seed, PYTHONPATH=dst,
+                   VERIF_EVIDENCE_DIR=os.path.join(scratch, "evidence"))
         if a.demo:
             d = subprocess.run(["/venv/bin/python", "-W", "ignore", os.path.abspath(a.demo)], env=dict(env, HOME=scratch),
                                capture_output=True, text=True, cwd=scratch)
